@@ -1,2 +1,4 @@
 import IstioModel.C08.Driver
-def main (_ : List String) : IO Unit := IstioModel.Wire.run ({} : IstioModel.C08.DState) IstioModel.C08.step
+def main (args : List String) : IO Unit :=
+  if args == ["hyps"] then IstioModel.Wire.run ({} : IstioModel.C08.DState) IstioModel.C08.stepHyps
+  else IstioModel.Wire.run ({} : IstioModel.C08.DState) IstioModel.C08.step
